@@ -21,6 +21,7 @@ m = {
            "baseline_off_cmd": "cd /repo && cargo test --workspace --no-fail-fast --offline", "source_commits": [], "add_only": True},
  "engines": [
    {"name": "svcheck", "path": "harness/", "serves_properties": [i for i in ids if i in C and i != 'C20'], "kind_free_text": "Rust binary: proptest 1.11 TestRunner (fixed seeds, shrinking, no persistence) + bounded exhaustive enumerators, exact big-integer and own-quadrature oracles, evidence/replay writer"},
+   {"name": "svserde", "path": "harness-serde/", "serves_properties": ["C20"], "kind_free_text": "c20.sh builds /repo under each advertised feature set, then a Rust binary (stats-ci with the serde feature; shares engine.rs) runs proptest round-trip histories through serde_json and ciborium"},
  ],
  "checks": [],
  "notes": "fix: commits in /repo (genuine defects repaired): " + "; ".join(fixes) + ". See known_findings.txt and DESIGN.md §7.",
@@ -35,7 +36,7 @@ for i in ids:
             "thorough_cmd": f"./check {i} --tier thorough",
             "evidence_file": f"evidence/{i}.json",
             "replay_cmd_template": f"./check {i} --replay {{path}}",
-            "engine": "svcheck",
+            "engine": "svserde" if i == "C20" else "svcheck",
             "level_claimed": {"category": "exploration", "text": c["text"], "design_ref": c["ref"]},
             "level_note": c["note"],
             "technique": c["technique"],
